@@ -80,7 +80,7 @@ Definition init_opts : list (bytes * bool) := [(opt_auto_commit, negb fluid)].
 Definition ctx_ok (c : context) : Prop :=
   cx_err c = None /\ Forall letter (cx_input c) /\ cx_caret c <= length (cx_input c)
   /\ cx_opts c = init_opts /\ segs_ok (sg_segs (cx_comp c))
-  /\ (sg_segs (cx_comp c) = [] <-> cx_input c = []).
+  /\ (sg_segs (cx_comp c) = [] <-> cx_input c = []) /\ cx_conn c = false.
 
 (** ---- the abc segmentor takes a run of letters whole ---- *)
 Lemma abc_scan_letters l : Forall letter l -> forall first e, abc_scan cfg l first e = length l.
@@ -248,11 +248,17 @@ Qed.
 (** Compose re-establishes the invariant from any composition of the right shape *)
 Lemma compose_ok c :
   cx_err c = None -> Forall letter (cx_input c) -> cx_caret c <= length (cx_input c) ->
-  cx_opts c = init_opts -> segs_ok (sg_segs (cx_comp c)) ->
+  cx_opts c = init_opts -> segs_ok (sg_segs (cx_comp c)) -> cx_conn c = false ->
   ctx_ok (compose cfg translate c) /\ cx_input (compose cfg translate c) = cx_input c
   /\ cx_caret (compose cfg translate c) = cx_caret c.
 Proof.
-  intros Herr Hl Hc Ho Hs. unfold compose.
+  intros Herr Hl Hc Ho Hs Hconn.
+  assert (Ehook : compose cfg translate c = compose_core cfg translate c).
+  { unfold compose, ac_on_update.
+    replace (cx_conn (compose_core cfg translate c)) with (cx_conn c); [rewrite Hconn; reflexivity|].
+    unfold compose_core. repeat match goal with |- context [let (_, _) := ?x in _] => destruct x end.
+    unfold ctx_check. repeat match goal with |- context [if ?b then _ else _] => destruct b end; reflexivity. }
+  rewrite Ehook. unfold compose_core.
   set (active := firstn (cx_caret c) (cx_input c)).
   destruct (reset_input_segs (cx_comp c) active Hs) as (Hi1 & Hs1).
   assert (Hcp : confirmed_pos (reset_input (cx_comp c) active) = 0).
@@ -309,7 +315,8 @@ Ltac use_compose_ok H :=
     let K := fresh "K" in
     assert (K : ctx_ok (compose cfg translate c') /\ cx_input (compose cfg translate c') = cx_input c'
                 /\ cx_caret (compose cfg translate c') = cx_caret c');
-    [apply compose_ok; cbn [ctx_with_input ctx_with_comp cx_err cx_input cx_caret cx_opts cx_comp]; try apply H; auto | ]
+    [apply compose_ok; cbn [ctx_with_input ctx_with_comp cx_err cx_input cx_caret cx_opts cx_comp cx_conn]; try apply H; auto;
+     try (match goal with Hn : _ /\ cx_conn _ = false |- cx_conn _ = false => exact (proj2 Hn) end) | ]
   end.
 
 (** ---- the primitives of Context under the invariant ---- *)
